@@ -482,22 +482,22 @@ Rests == {<<>>, <<1, 0, 0, 0, 0, 0, 0, 0, 5, 255, 47, 2>>}
 (* enc: the pristine input, inp: the input the decoder gets *)
 MkCase(r, cv, restLen, enc, c) == [rec |-> r, cv |-> cv, rest |-> restLen, enc |-> enc, c |-> c, inp |-> Apply(enc, c)]
 
-CasesOf(r) ==
-  LET G == Grammar(r) IN
+(* the uncorrupted cases: a class vector, encoded, followed by trailing bytes *)
+BaseCasesOf(r) ==
   UNION { LET enc0 == Encode(r, cv)
           IN {MkCase(r, cv, Len(rest), enc0 \o rest, NoCor) : rest \in Rests}
         : cv \in Vectors(r) }
-  \cup
-  UNION { LET vals == Vals(r, cv)
-              ef == [i \in 1..Len(cv) |-> EncField(G[i], vals[i])]
-              offs == Offsets(ef)
-              enc0 == Flat(ef)
-          IN UNION { LET enc == enc0 \o rest
-                     IN {MkCase(r, cv, Len(rest), enc, c) : c \in Corruptions(G, vals, ef, offs, enc, Len(enc0))}
-                   : rest \in (IF CorrMode = "all" THEN Rests ELSE {<<>>}) }
-        : cv \in StarOf(r) }
+BaseCases == UNION {BaseCasesOf(r) : r \in Records}
 
-Cases == UNION {CasesOf(r) : r \in Records}
+(* the corruptions applicable to an uncorrupted case k (the environment's move) *)
+Corruptible(k) == /\ k.c.k = "none" /\ CorrMode # "none"
+                  /\ k.cv \in StarOf(k.rec)
+                  /\ (k.rest = 0 \/ CorrMode = "all")
+CorruptionsOf(k) ==
+  LET G == Grammar(k.rec)
+      vals == Vals(k.rec, k.cv)
+      ef == [i \in 1..Len(k.cv) |-> EncField(G[i], vals[i])]
+  IN Corruptions(G, vals, ef, Offsets(ef), k.enc, Len(k.enc) - k.rest)
 
 -----------------------------------------------------------------------------
 (* the specification *)
@@ -507,11 +507,17 @@ vars == <<case, st>>
 
 Input == case.inp
 
-Init == case \in Cases /\ st = Start
-Next == /\ st.outcome = "run"
-        /\ st' = Step(st, Input, case.rec)
-        /\ UNCHANGED case
+Init == case \in BaseCases /\ st = Start
+(* environment: damage the file before it is read *)
+Corrupt == /\ st.steps = 0 /\ Corruptible(case)
+           /\ \E c \in CorruptionsOf(case) : case' = [case EXCEPT !.c = c, !.inp = Apply(case.enc, c)]
+           /\ UNCHANGED st
+(* the decoder: one field (or one map entry) per step *)
+Decode == /\ st.outcome = "run"
+          /\ st' = Step(st, Input, case.rec)
+          /\ UNCHANGED case
 Done == st.outcome # "run" /\ UNCHANGED vars          \* terminal: stutter (so that a deadlock means "stuck")
+Next == Corrupt \/ Decode
 Spec == Init /\ [][Next \/ Done]_vars
 
 -----------------------------------------------------------------------------
